@@ -370,4 +370,114 @@ func ReportElement returns (err)
     assert @one-row-per-matching-entry [C07] len(list) == rbase[len(names)] && rbase[0] == 0 && (forall p int :: {rbase[p]} 0 <= p && p < len(names) ==> rbase[p + 1] == rbase[p] + CntName(elems(mapget(nl, names[p]).Elements), len(mapget(nl, names[p]).Elements), rec.ElementName))
     set rowsN := len(list)
   }
+
+// ---------------------------------------------------------------------------------------------
+// command wiring (C16, C06, C15, C11): the Action closures hand the command exactly the loaded options - the opened
+// files in the order the command expects them (book first, log second) and every part of the configuration equal to
+// the corresponding part of the options, so the settings options.Load resolved are the ones the report runs with.
+// ---------------------------------------------------------------------------------------------
+type report.reportElementCmd(dbStream, rc) returns (err)
+  modifies *
+  modifies ghost(cbLen, cbErr, cbNode, cbStop, cbRet, cbLineNo, cbLine, cbHeader, cbElems, cbNElems, scRd, scPos, privLo, evOf, accKey, accP, accN, accH, bufSink, bufSticky, sinkFailed, sinkPend, prLen, prSink, prArg, prArgs, csvLen, csvW, csvN, csvRow, tnodes, tdepth, tmax, tmapOf, jlen, tvLen, tv, tseg, tvSet, procLen, procTime, procSrc, lastOpen, cfgRd)
+
+type report.reportUnresolvedCmd(logStream, dbStream, rc) returns (err)
+  modifies *
+  modifies ghost(cbLen, cbErr, cbNode, cbStop, cbRet, cbLineNo, cbLine, cbHeader, cbElems, cbNElems, scRd, scPos, privLo, evOf, accKey, accP, accN, accH, bufSink, bufSticky, sinkFailed, sinkPend, prLen, prSink, prArg, prArgs, csvLen, csvW, csvN, csvRow, tnodes, tdepth, tmax, tmapOf, jlen, tvLen, tv, tseg, tvSet, procLen, procTime, procSrc, lastOpen, cfgRd)
+
+type report.reportQuantityCmd(logStream, rc) returns (err)
+  modifies *
+  modifies ghost(cbLen, cbErr, cbNode, cbStop, cbRet, cbLineNo, cbLine, cbHeader, cbElems, cbNElems, scRd, scPos, privLo, evOf, accKey, accP, accN, accH, bufSink, bufSticky, sinkFailed, sinkPend, prLen, prSink, prArg, prArgs, csvLen, csvW, csvN, csvRow, tnodes, tdepth, tmax, tmapOf, jlen, tvLen, tv, tseg, tvSet, procLen, procTime, procSrc, lastOpen, cfgRd)
+
+type report.reportTotalsCmd(logStream, dbStream, rc) returns (err)
+  modifies *
+  modifies ghost(cbLen, cbErr, cbNode, cbStop, cbRet, cbLineNo, cbLine, cbHeader, cbElems, cbNElems, scRd, scPos, privLo, evOf, accKey, accP, accN, accH, bufSink, bufSticky, sinkFailed, sinkPend, prLen, prSink, prArg, prArgs, csvLen, csvW, csvN, csvRow, tnodes, tdepth, tmax, tmapOf, jlen, tvLen, tv, tseg, tvSet, procLen, procTime, procSrc, lastOpen, cfgRd)
+
+type report.withFileReaders(fileNames, cb) returns (err)
+  modifies *
+  modifies ghost(cbLen, cbErr, cbNode, cbStop, cbRet, cbLineNo, cbLine, cbHeader, cbElems, cbNElems, scRd, scPos, privLo, evOf, accKey, accP, accN, accH, bufSink, bufSticky, sinkFailed, sinkPend, prLen, prSink, prArg, prArgs, csvLen, csvW, csvN, csvRow, tnodes, tdepth, tmax, tmapOf, jlen, tvLen, tv, tseg, tvSet, procLen, procTime, procSrc, lastOpen, cfgRd)
+
+func newReportElementTotalCommand$2$1$1 returns (err)
+  props C16 C11 C07 C08
+  requires @streams len(streams) == 1 && o != nil && reportElement != nil && c != nil
+  dyncall 1 report.reportElementCmd
+  modifies *
+  modifies ghost(cbLen, cbErr, cbNode, cbStop, cbRet, cbLineNo, cbLine, cbHeader, cbElems, cbNElems, scRd, scPos, privLo, evOf, accKey, accP, accN, accH, bufSink, bufSticky, sinkFailed, sinkPend, prLen, prSink, prArg, prArgs, csvLen, csvW, csvN, csvRow, tnodes, tdepth, tmax, tmapOf, jlen, tvLen, tv, tseg, tvSet, procLen, procTime, procSrc, lastOpen, cfgRd)
+  ghost before dyncall 1 {
+    assert @streams [C16] #arg0 == streams[0]
+    assert @wiring [C16 C11 C07] #arg1.ParserConfig == o.ParserConfig && #arg1.ResolverConfig == o.ResolverConfig && #arg1.ReporterConfig == o.ReporterConfig && #arg1.Descending == CtxIsSet(c, "desc") && #arg1.ElementName == ArgsFirst(CtxArgs(c))
+  }
+
+func newReportElementTotalCommand$2$1 returns (err)
+  props C16 C08
+  requires @loaded o != nil && cu.WithFileReaders != nil
+  dyncall 1 report.withFileReaders
+  modifies *
+  modifies ghost(cbLen, cbErr, cbNode, cbStop, cbRet, cbLineNo, cbLine, cbHeader, cbElems, cbNElems, scRd, scPos, privLo, evOf, accKey, accP, accN, accH, bufSink, bufSticky, sinkFailed, sinkPend, prLen, prSink, prArg, prArgs, csvLen, csvW, csvN, csvRow, tnodes, tdepth, tmax, tmapOf, jlen, tvLen, tv, tseg, tvSet, procLen, procTime, procSrc, lastOpen, cfgRd)
+  ghost before dyncall 1 {
+    assert @files [C16] len(#arg0) == 1 && #arg0[0] == o.GlobalConfig.DbFileName
+  }
+
+func newReportUnresolvedCommand$1$1$1 returns (err)
+  props C16 C06 C11 C08
+  requires @streams len(streams) == 2 && o != nil && reportUnresolved != nil
+  dyncall 1 report.reportUnresolvedCmd
+  modifies *
+  modifies ghost(cbLen, cbErr, cbNode, cbStop, cbRet, cbLineNo, cbLine, cbHeader, cbElems, cbNElems, scRd, scPos, privLo, evOf, accKey, accP, accN, accH, bufSink, bufSticky, sinkFailed, sinkPend, prLen, prSink, prArg, prArgs, csvLen, csvW, csvN, csvRow, tnodes, tdepth, tmax, tmapOf, jlen, tvLen, tv, tseg, tvSet, procLen, procTime, procSrc, lastOpen, cfgRd)
+  ghost before dyncall 1 {
+    assert @streams [C16] #arg0 == streams[1] && #arg1 == streams[0]
+    assert @wiring [C16 C06 C11] #arg2.DateFormat == o.GlobalConfig.DateFormat && #arg2.ParserConfig == o.ParserConfig && #arg2.ResolverConfig == o.ResolverConfig && #arg2.ReporterConfig == o.ReporterConfig && #arg2.FilterConfig == o.FilterConfig
+  }
+
+func newReportUnresolvedCommand$1$1 returns (err)
+  props C16 C08
+  requires @loaded o != nil && cu.WithFileReaders != nil
+  dyncall 1 report.withFileReaders
+  modifies *
+  modifies ghost(cbLen, cbErr, cbNode, cbStop, cbRet, cbLineNo, cbLine, cbHeader, cbElems, cbNElems, scRd, scPos, privLo, evOf, accKey, accP, accN, accH, bufSink, bufSticky, sinkFailed, sinkPend, prLen, prSink, prArg, prArgs, csvLen, csvW, csvN, csvRow, tnodes, tdepth, tmax, tmapOf, jlen, tvLen, tv, tseg, tvSet, procLen, procTime, procSrc, lastOpen, cfgRd)
+  ghost before dyncall 1 {
+    assert @files [C16] len(#arg0) == 2 && #arg0[0] == o.GlobalConfig.DbFileName && #arg0[1] == o.GlobalConfig.LogFileName
+  }
+
+func newReportQuantityCommand$1$1$1 returns (err)
+  props C16 C06 C07 C08
+  requires @streams len(streams) == 1 && o != nil && reportQuantity != nil && c != nil
+  dyncall 1 report.reportQuantityCmd
+  modifies *
+  modifies ghost(cbLen, cbErr, cbNode, cbStop, cbRet, cbLineNo, cbLine, cbHeader, cbElems, cbNElems, scRd, scPos, privLo, evOf, accKey, accP, accN, accH, bufSink, bufSticky, sinkFailed, sinkPend, prLen, prSink, prArg, prArgs, csvLen, csvW, csvN, csvRow, tnodes, tdepth, tmax, tmapOf, jlen, tvLen, tv, tseg, tvSet, procLen, procTime, procSrc, lastOpen, cfgRd)
+  ghost before dyncall 1 {
+    assert @streams [C16] #arg0 == streams[0]
+    assert @wiring [C16 C06 C07] #arg1.DateFormat == o.GlobalConfig.DateFormat && #arg1.ParserConfig == o.ParserConfig && #arg1.ReporterConfig == o.ReporterConfig && #arg1.FilterConfig == o.FilterConfig && #arg1.Descending == CtxIsSet(c, "desc")
+  }
+
+func newReportQuantityCommand$1$1 returns (err)
+  props C16 C08
+  requires @loaded o != nil && cu.WithFileReaders != nil
+  dyncall 1 report.withFileReaders
+  modifies *
+  modifies ghost(cbLen, cbErr, cbNode, cbStop, cbRet, cbLineNo, cbLine, cbHeader, cbElems, cbNElems, scRd, scPos, privLo, evOf, accKey, accP, accN, accH, bufSink, bufSticky, sinkFailed, sinkPend, prLen, prSink, prArg, prArgs, csvLen, csvW, csvN, csvRow, tnodes, tdepth, tmax, tmapOf, jlen, tvLen, tv, tseg, tvSet, procLen, procTime, procSrc, lastOpen, cfgRd)
+  ghost before dyncall 1 {
+    assert @files [C16] len(#arg0) == 1 && #arg0[0] == o.GlobalConfig.LogFileName
+  }
+
+func NewReportTotalsCommand$1$1$1 returns (err)
+  props C16 C06 C11 C07 C08
+  requires @streams len(streams) == 2 && o != nil && reportTotals != nil
+  dyncall 1 report.reportTotalsCmd
+  modifies *
+  modifies ghost(cbLen, cbErr, cbNode, cbStop, cbRet, cbLineNo, cbLine, cbHeader, cbElems, cbNElems, scRd, scPos, privLo, evOf, accKey, accP, accN, accH, bufSink, bufSticky, sinkFailed, sinkPend, prLen, prSink, prArg, prArgs, csvLen, csvW, csvN, csvRow, tnodes, tdepth, tmax, tmapOf, jlen, tvLen, tv, tseg, tvSet, procLen, procTime, procSrc, lastOpen, cfgRd)
+  ghost before dyncall 1 {
+    assert @streams [C16] #arg0 == streams[1] && #arg1 == streams[0]
+    assert @wiring [C16 C06 C11 C07] #arg2.DateFormat == o.GlobalConfig.DateFormat && #arg2.ParserConfig == o.ParserConfig && #arg2.ResolverConfig == o.ResolverConfig && #arg2.ReporterConfig == o.ReporterConfig && #arg2.FilterConfig == o.FilterConfig
+  }
+
+func NewReportTotalsCommand$1$1 returns (err)
+  props C16 C08
+  requires @loaded o != nil && cu.WithFileReaders != nil
+  dyncall 1 report.withFileReaders
+  modifies *
+  modifies ghost(cbLen, cbErr, cbNode, cbStop, cbRet, cbLineNo, cbLine, cbHeader, cbElems, cbNElems, scRd, scPos, privLo, evOf, accKey, accP, accN, accH, bufSink, bufSticky, sinkFailed, sinkPend, prLen, prSink, prArg, prArgs, csvLen, csvW, csvN, csvRow, tnodes, tdepth, tmax, tmapOf, jlen, tvLen, tv, tseg, tvSet, procLen, procTime, procSrc, lastOpen, cfgRd)
+  ghost before dyncall 1 {
+    assert @files [C16] len(#arg0) == 2 && #arg0[0] == o.GlobalConfig.DbFileName && #arg0[1] == o.GlobalConfig.LogFileName
+  }
+
 @*/
